@@ -39,7 +39,31 @@ pub fn ecfg(label: &str, multi: bool, ticks: &[u32], step_size: u64, submits: us
         alpha: alpha_for(ticks, false),
         clauses: clauses.clone(),
         base: vec![],
+        magnitude: false,
     }
+}
+
+/// large numbers at environment level: clock beyond 2^32, step size 2^33, volumes of 1e9 / 2e9 /
+/// 3e9 (steps are offered only where every schedule keeps the books below 2^32)
+pub fn magnitude_cfg(label: &str, multi: bool, ticks: &[u32], submits: usize, steps: usize, clauses: &Clauses) -> ECfg {
+    // (validity is decided on the candidate schedules, so they are always tracked here)
+    let mut clauses = clauses.clone();
+    clauses.sched = true;
+    let mut c = ecfg(label, multi, ticks, 1 << 33, submits, steps, 0, &clauses);
+    c.start = 1 << 40;
+    c.magnitude = true;
+    c.alpha.limit_vols = vec![1_000_000_000, 2_000_000_000];
+    c.alpha.market_vols = vec![3_000_000_000];
+    c.alpha.modify = false;
+    c
+}
+
+/// prices at the top of the price axis: level walks run past 2^32-1
+pub fn top_of_axis_cfg(label: &str, submits: usize, steps: usize, clauses: &Clauses) -> ECfg {
+    let mut c = ecfg(label, false, &[1], 100, submits, steps, 0, clauses);
+    c.alpha.prices = vec![vec![u32::MAX - 3, u32::MAX - 1]];
+    c.alpha.market_vols = vec![];
+    c
 }
 
 pub fn absorb_env(out: &mut Outcome, cfg: &ECfg, assets: usize, levels: usize, r: (EStats, f64), sig_prefix: &str, need_all_orders: bool) {
@@ -124,6 +148,19 @@ pub fn c08(tier: &str) -> i32 {
     absorb_env(&mut out, &c, 2, 3, run_env::<2, 3>(&c), "market-env", true);
     let c = ecfg("MarketEnv<2,3>: step size 1000, toggle", true, &[1, 2], 1000, s - 1, 2, 1, &cl);
     absorb_env(&mut out, &c, 2, 3, run_env::<2, 3>(&c), "market-env", true);
+    // more assets than published levels, and a single level
+    let c = ecfg("MarketEnv<3,2>: more assets than levels", true, &[1, 2, 3], 100, 3, 2, 0, &cl);
+    absorb_env(&mut out, &c, 3, 2, run_env::<3, 2>(&c), "market-env", true);
+    let c = ecfg("MarketEnv<2,1>: one published level", true, &[1, 2], 100, 3, 2, 0, &cl);
+    absorb_env(&mut out, &c, 2, 1, run_env::<2, 1>(&c), "market-env", true);
+    let mut c = ecfg("MarketEnv<4,3>: four assets", true, &[1, 2, 3, 5], 100, 3, 2, 0, &cl);
+    c.alpha.modify = false;
+    absorb_env(&mut out, &c, 4, 3, run_env::<4, 3>(&c), "market-env", true);
+    // large numbers
+    let c = magnitude_cfg("Env<3>: volumes of 1e9..3e9, clock beyond 2^40, step size 2^33", false, &[1], s, 3, &cl);
+    absorb_env(&mut out, &c, 1, 3, run_env::<1, 3>(&c), "env", true);
+    let c = magnitude_cfg("MarketEnv<2,3>: volumes of 1e9..3e9", true, &[1, 2], s - 1, 2, &cl);
+    absorb_env(&mut out, &c, 2, 3, run_env::<2, 3>(&c), "market-env", true);
     out.assumptions = vec![
         "plain stand-alone OrderBook (same library) is the replay target, plus the harness's reference engine".into(),
         "batch sizes up to the step size (larger batches are C05's subject)".into(),
@@ -153,6 +190,14 @@ pub fn c10(tier: &str) -> i32 {
     absorb_env(&mut out, &c, 2, 3, run_env::<2, 3>(&c), "market-env", false);
     let c = ecfg("MarketEnv<3,2>", true, &[1, 2, 3], 100, 3, 2, 0, &cl);
     absorb_env(&mut out, &c, 3, 2, run_env::<3, 2>(&c), "market-env", false);
+    let c = top_of_axis_cfg("Env<3>: prices just below 2^32-1 (ask level walks pass the top)", s, 3, &cl);
+    absorb_env(&mut out, &c, 1, 3, run_env::<1, 3>(&c), "env", false);
+    let c = top_of_axis_cfg("Env<10>: prices just below 2^32-1", s - 1, 2, &cl);
+    absorb_env(&mut out, &c, 1, 10, run_env::<1, 10>(&c), "env", false);
+    let c = magnitude_cfg("Env<3>: volumes of 1e9..3e9, clock beyond 2^40", false, &[1], s - 1, 3, &cl);
+    absorb_env(&mut out, &c, 1, 3, run_env::<1, 3>(&c), "env", false);
+    let c = magnitude_cfg("MarketEnv<2,3>: volumes of 1e9..3e9", true, &[1, 2], s - 1, 2, &cl);
+    absorb_env(&mut out, &c, 2, 3, run_env::<2, 3>(&c), "market-env", false);
     out.finish()
 }
 
@@ -222,6 +267,14 @@ pub fn c11(tier: &str) -> i32 {
     absorb_env(&mut out, &c, 2, 3, run_env::<2, 3>(&c), "market-env", false);
     let c = ecfg("MarketEnv<3,2>", true, &[1, 2, 3], 100, 3, 2, 0, &cl);
     absorb_env(&mut out, &c, 3, 2, run_env::<3, 2>(&c), "market-env", false);
+    let c = ecfg("MarketEnv<2,1>: one published level", true, &[1, 2], 100, 3, 2, 0, &cl);
+    absorb_env(&mut out, &c, 2, 1, run_env::<2, 1>(&c), "market-env", false);
+    let c = top_of_axis_cfg("Env<3>: prices just below 2^32-1", s, 3, &cl);
+    absorb_env(&mut out, &c, 1, 3, run_env::<1, 3>(&c), "env", false);
+    let c = top_of_axis_cfg("Env<10>: prices just below 2^32-1", s - 1, 2, &cl);
+    absorb_env(&mut out, &c, 1, 10, run_env::<1, 10>(&c), "env", false);
+    let c = magnitude_cfg("Env<3>: volumes of 1e9..3e9, clock beyond 2^40, step size 2^33", false, &[1], s - 1, 3, &cl);
+    absorb_env(&mut out, &c, 1, 3, run_env::<1, 3>(&c), "env", false);
     out.assumptions = vec!["live values are read through get_orderbook()/get_market() right after each step".into()];
     out.finish()
 }
@@ -286,6 +339,16 @@ pub fn c12_env_part(out: &mut Outcome, t: bool) {
     c.alpha.offgrid_modify = true;
     c.alpha.modify = false;
     absorb_env(out, &c, 2, 3, run_env::<2, 3>(&c), "market-env", false);
+    // the two ends of the price axis are grid prices: an asset whose only quotes sit there
+    let mut c = ecfg("MarketEnv<2,3> ticks 1,5: limit prices 0 and 2^32-1", true, &[1, 5], 100, s, 2, 0, &cl);
+    c.alpha.prices = vec![vec![0, u32::MAX], vec![0, u32::MAX]];
+    c.alpha.modify = false;
+    c.alpha.market_vols = vec![];
+    absorb_env(out, &c, 2, 3, run_env::<2, 3>(&c), "market-env", false);
+    let mut c = ecfg("Env<3> tick 1: limit prices 0 and 2^32-1", false, &[1], 100, s, 2, 0, &cl);
+    c.alpha.prices = vec![vec![0, u32::MAX]];
+    c.alpha.modify = false;
+    absorb_env(out, &c, 1, 3, run_env::<1, 3>(&c), "env", false);
     // on-grid modifications too (steps in which an asset receives nothing but a modify)
     let mut c = ecfg("MarketEnv<2,3> ticks 2,3: modify-only steps, published levels vs resting orders", true, &[2, 3], 100, s, 3, 0, &cl);
     c.alpha.offgrid_modify = true;
